@@ -462,7 +462,7 @@ auto FileGraph::divideByEdge(size_t, size_t, size_t id, size_t total)
     -> std::pair<NodeRange, EdgeRange> {
   size_t size  = numEdges;
   size_t block = (size + total - 1) / total;
-  size_t aa    = block * id;
+  size_t aa    = std::min(block * id, static_cast<size_t>(numEdges));
   size_t ea    = std::min(block * (id + 1), static_cast<size_t>(numEdges));
 
   // note these use local node ids (numNodes is made local by partFromFile if
